@@ -59,12 +59,13 @@ class Scn:
 
     def __init__(self, label: str, build: Callable[[Any], Any], cmd: Callable[[Any, Any], Any], get: Callable[[Any], Any], values: list[Any],
                  ok: Callable[[Any, Any], bool], prepare: list[tuple[str, Any]] | None = None, settle: float = 1.0, pairs: bool = False,
-                 feedback: Callable[[Any], list[tuple[str, Any]]] | None = None) -> None:
+                 feedback: Callable[[Any, Any], list[tuple[str, Any]]] | None = None) -> None:
         self.label, self.build, self.cmd, self.get, self.values, self.ok = label, build, cmd, get, values, ok
         self.prepare = prepare or []
         self.settle = settle
         self.pairs = pairs
-        self.feedback = feedback  # telegrams the actuator sends back after executing the command (state addresses the library cannot write)
+        self.feedback = feedback  # telegrams the actuator sends back after executing the command (state addresses the library cannot write):
+        # the thermostat reports base + the shift it received as its new target temperature
 
 
 def eq(a: Any, b: Any) -> bool:
@@ -152,7 +153,7 @@ def _scenarios() -> list[Scn]:
             tgts = [round(21.0 + s, 1) for s in shifts]
             S.append(Scn(f"climate.target_via_shift({mode.name},step={step})", build, lambda d, v: d.set_target_temperature(v), lambda d: d.setpoint_shift, tgts,
                          lambda q, r, image=image: nearest_ok(q - 21.0, r, image), prepare=prep, pairs=False,
-                         feedback=lambda v: [("1/5/5", DPTBase.parse_transcoder("temperature").to_knx(v))]))  # type: ignore[union-attr]
+                         feedback=lambda d, v: [("1/5/5", DPTBase.parse_transcoder("temperature").to_knx(21.0 + (d.setpoint_shift or 0.0)))]))  # type: ignore[union-attr]
     # climate mode
     ops = [HVACOperationMode.COMFORT, HVACOperationMode.STANDBY, HVACOperationMode.ECONOMY, HVACOperationMode.BUILDING_PROTECTION]
     S.append(Scn("climate_mode.operation_mode", lambda x: D.ClimateMode(x, "d", group_address_operation_mode="1/6/1"), lambda d, v: d.set_operation_mode(v), lambda d: d.operation_mode, ops, eq, pairs=True))
@@ -277,7 +278,7 @@ def run_case(si: int, vis: tuple[int, ...]) -> list[tuple[str, str]]:
                 if not sent:
                     viols.append((f"no-telegram-sent:{scn.label}", f"{scn.label}: command {v!r} queued nothing"))
                 if scn.feedback is not None:
-                    for ga, payload in scn.feedback(v):
+                    for ga, payload in scn.feedback(dev, v):
                         w.incoming(Telegram(GroupAddress(ga), payload=GroupValueWrite(payload), source_address=IndividualAddress("1.1.9")))
                     w.run(0.5)
             for name, exc in w.task_escapes():
